@@ -104,6 +104,54 @@ func isErrNotNil(e ast.Expr) bool {
 	return ok1 && ok2 && y.Name == "nil" && (x.Name == "err" || strings.HasSuffix(strings.ToLower(x.Name), "err"))
 }
 
+// a block of assignments without effects: right-hand sides are identifiers, literals, or —
+// in the failing arm — the construction of an error (fmt.Errorf / errors.New / a conversion);
+// errNonNil: the arm may assign the error only from such a construction (never nil);
+// otherwise (the succeeding arm) it may assign it only nil
+func onlyAssigns(b *ast.BlockStmt, errNonNil bool) bool {
+	if b == nil {
+		return true
+	}
+	for _, s := range b.List {
+		a, ok := s.(*ast.AssignStmt)
+		if !ok || len(a.Lhs) != len(a.Rhs) {
+			return false
+		}
+		for i, r := range a.Rhs {
+			lhsErr := false
+			if id, ok := a.Lhs[i].(*ast.Ident); ok {
+				lhsErr = id.Name == "err" || strings.HasSuffix(strings.ToLower(id.Name), "err")
+			}
+			switch x := r.(type) {
+			case *ast.Ident:
+				if lhsErr && (x.Name == "nil") == errNonNil {
+					return false
+				}
+			case *ast.BasicLit:
+				if lhsErr {
+					return false
+				}
+			case *ast.CallExpr:
+				n := types.ExprString(x.Fun)
+				if !(n == "fmt.Errorf" || n == "errors.New" || n == "errors.Join") || (lhsErr && !errNonNil) {
+					return false
+				}
+			default:
+				return false
+			}
+		}
+	}
+	return true
+}
+
+func onlyAssignsElse(e ast.Stmt) bool {
+	if e == nil {
+		return true
+	}
+	b, ok := e.(*ast.BlockStmt)
+	return ok && onlyAssigns(b, false)
+}
+
 func (b *skb) block(stmts []ast.Stmt) string {
 	// statements are translated front to back (closures must be registered before use),
 	// then folded into a right-nested sequence
@@ -114,6 +162,20 @@ func (b *skb) block(stmts []ast.Stmt) string {
 			if ifs, ok := stmts[i+1].(*ast.IfStmt); ok && ifs.Init == nil && ifs.Else == nil && isErrNotNil(ifs.Cond) {
 				parts = append(parts, b.acqNode(b.block(ifs.Body.List)))
 				i++
+				continue
+			}
+		}
+		// idiom (a'): the same with the error wrapped in between (what inlining a helper that
+		// returns `"", fmt.Errorf(…, err)` on failure and `key, nil` on success leaves behind):
+		//   err := acquireLock(..); if err != nil { …, err := …, wrap(err) } else { …, err := …, nil }; if err != nil { fail }
+		// the middle statement only assigns; it keeps err non-nil in its first arm, nil in the other
+		if b.isAcquire(stmts[i]) && i+2 < len(stmts) {
+			mid, ok1 := stmts[i+1].(*ast.IfStmt)
+			last, ok2 := stmts[i+2].(*ast.IfStmt)
+			if ok1 && ok2 && mid.Init == nil && isErrNotNil(mid.Cond) && last.Init == nil && last.Else == nil && isErrNotNil(last.Cond) &&
+				onlyAssigns(mid.Body, true) && onlyAssignsElse(mid.Else) {
+				parts = append(parts, b.acqNode(b.block(last.Body.List)))
+				i += 2
 				continue
 			}
 		}
@@ -319,15 +381,21 @@ func (b *skb) stmt(s ast.Stmt) string {
 	case *ast.GoStmt:
 		return "(.spawn " + b.expr(x.Call) + ")"
 	case *ast.SwitchStmt:
+		// the default arm is what remains when no case matches (wherever it is written): it is
+		// the innermost alternative, not a branch that may or may not be taken
 		r := ".skip"
 		arms := x.Body.List
+		for _, a := range arms {
+			if cc := a.(*ast.CaseClause); len(cc.List) == 0 {
+				r = b.block(cc.Body)
+			}
+		}
 		for i := len(arms) - 1; i >= 0; i-- {
 			cc := arms[i].(*ast.CaseClause)
-			lbl := "default"
-			if len(cc.List) > 0 {
-				lbl = cond(cc.List[0])
+			if len(cc.List) == 0 {
+				continue
 			}
-			r = "(.br " + leanStr("case "+lbl) + " " + sSeq(b.exprs(cc.List...), b.block(cc.Body)) + " " + r + ")"
+			r = "(.br " + leanStr("case "+cond(cc.List[0])) + " " + sSeq(b.exprs(cc.List...), b.block(cc.Body)) + " " + r + ")"
 		}
 		return sSeq(b.stmt(x.Init), sSeq(b.expr(x.Tag), r))
 	case *ast.TypeSwitchStmt:
